@@ -24,7 +24,10 @@ RULE = ("Generated test programs (setUp before/after the upcall, test method, te
         "a BaseExceptionGroup holding an interrupt; exception objects already reported by another test's run; a falsy "
         "result object; an @expectedFailure method raising MultipleExceptions of Exceptions. Stages that ran are "
         "compared as a multiset (their order is C02's); a skip-decorated test may either run nothing or run setUp / "
-        "tearDown / cleanups around a skipping method; user code must lie between startTest and stopTest. Non-trivial: >= 2 stages raise, or a non-Exception is raised, or flavour != extended; distinct = "
+        "tearDown / cleanups around a skipping method; user code must lie between startTest and stopTest. rerun_grid: the same "
+        "case object run a second time after a complete first run in which one stage raised (8 behaviours x 5 stages x the "
+        "behaviour of the second run x 4 flavour pairs, 2336 histories enumerated); the second run is judged as the first run of a "
+        "fresh object would be - nothing of the earlier run may linger. Non-trivial: >= 2 stages raise, or a non-Exception is raised, or flavour != extended; distinct = "
         "distinct canonical (program, flavour).")
 ASSUMPTIONS = [
     "user handlers are only generated for Exception subclasses",
@@ -165,8 +168,23 @@ def _stands_for(exc, o):
 def check(spec, clauses=("bracket", "nonexc")):
     prog, flavour = spec["prog"], spec["flavour"]
     vs = []
-    model = P.Model(prog).run()
-    obs = R.run_program(prog, flavour, falsy=bool(spec.get("falsy")))
+    case = live = None
+    rerun = bool(spec.get("rerun"))
+    if rerun:
+        # the checked run is the SECOND run of one case object: actions marked runs=[0] happened in a complete
+        # earlier run against another result, those marked runs=[1] happen now; nothing of the earlier run may linger
+        live = P.Live()
+        first = R.run_program(prog, spec["rerun"], live=live)
+        case = first["case"]
+        del live.log[:]
+        live.raised_objs.clear()
+        live.multis.clear()
+        live.exec_span = (10 ** 9, -1)
+        live.run_no = 1
+        # force_failure is an attribute the test sets on itself; testtools leaves it alone between runs (DESIGN 11.2)
+        case.force_failure = bool(prog.get("force_outside"))
+    model = P.Model(prog, run_no=1 if rerun else 0).run()
+    obs = R.run_program(prog, flavour, case=case, live=live, falsy=bool(spec.get("falsy")))
     ev = obs["events"]
     names = [e[0] for e in ev]
     tag = flavour
@@ -197,7 +215,7 @@ def check(spec, clauses=("bracket", "nonexc")):
             # the bracket encloses the test: no user code before startTest or after stopTest (the statement orders
             # the events only; user code between the outcome and stopTest is inside the bracket)
             lo, hi = obs["live"].exec_span
-            if hi >= 0 and flavour != "none":
+            if hi >= 0 and flavour != "none" and not rerun:       # (the case of a re-run was built around the first run's event log)
                 i_start = names.index("startTest")
                 i_stop = names.index("stopTest")
                 if lo <= i_start or hi > i_stop:
@@ -254,7 +272,8 @@ def run_case(spec):
     return Case(vs, nt, ["flavour=" + spec["flavour"], "raises=%d" % min(len(model.raised), 4),
                          "nonexc" if any(P.klass(r["kind"]) == "nonexc" for r in model.raised) else "",
                          "decor=" + spec["prog"]["decor"], "clone" if spec["prog"].get("clone") else "",
-                         "reused-exception" if spec["prog"].get("reuse_exc") else "", "falsy-result" if spec.get("falsy") else ""]
+                         "reused-exception" if spec["prog"].get("reuse_exc") else "", "falsy-result" if spec.get("falsy") else "",
+                         "second-run-of-the-object" if spec.get("rerun") else ""]
                 + sorted({"kind=" + r["kind"] for r in model.raised}),
                 {"events": [e[0] for e in obs["events"]], "raised": repr(obs["raised"])})
 
@@ -364,6 +383,43 @@ def _enum_variants():
             yield {"prog": prog, "flavour": fl}
 
 
+RERUN_KINDS = [None, "fail", "error", "skip", "xfail", "uxsuccess", "multi", "kbi", "sysexit"]
+
+
+def _enum_rerun():
+    """The same case object run twice: one faulty stage in the first run (against another result), one faulty
+    stage - or none - in the second, which is the run that is checked."""
+    def mark(acts, runs, off):
+        for a in acts:
+            if a["a"] == "raise":
+                a["runs"] = runs
+            a["i"] += off
+            for sub in a.get("sub") or []:
+                sub["i"] += off
+            if a["a"] == "cleanup":
+                mark(a["body"], runs, off)
+    for s0 in range(5):
+        for k0 in RERUN_KINDS[1:]:
+            for s1 in range(5):
+                for k1 in (RERUN_KINDS if s1 == s0 else RERUN_KINDS[:1] if s1 else [None, "fail", "kbi"]):
+                    c0, c1 = [None] * 5, [None] * 5
+                    c0[s0], c1[s1] = k0, k1
+                    a, b = grid_program(c0), grid_program(c1)
+                    for stage in STAGES:
+                        mark(a[stage], [0], 0)
+                        mark(b[stage], [1], 100)
+                    # one set of cleanups (those of ``a``, registered in every run); the raises of ``b`` go next to
+                    # the raises of ``a`` in the same stage lists
+                    prog = a
+                    prog["setUp_post"] += [x for x in b["setUp_post"] if x["a"] == "raise"]
+                    prog["body"] += [x for x in b["body"] if x["a"] == "raise"]
+                    prog["tearDown_post"] += [x for x in b["tearDown_post"] if x["a"] == "raise"]
+                    prog["setUp_pre"][0]["body"] += [x for x in b["setUp_pre"][0]["body"] if x["a"] == "raise"]
+                    prog["body"][0]["body"] += [x for x in b["body"][0]["body"] if x["a"] == "raise"]
+                    for fl, fl0 in (("ext", "ext"), ("py26", "real"), ("real", "ext"), ("stream", "ext")):
+                        yield {"prog": prog, "flavour": fl, "rerun": fl0}
+
+
 def subchecks(tier):
     q = tier == "quick"
     return [
@@ -375,6 +431,9 @@ def subchecks(tier):
             note="clone x 8 behaviours x 3 stages; reused exception object x 7 behaviours x 3 stages; dataclass / "
                  "equal-to-all / ExceptionGroup / BaseExceptionGroup x 5 stages (+ twice in one run, + next to an "
                  "interrupt); falsy result x 4 behaviours; a failing cleanup next to a cleanup that registers another x 4 behaviours x 2 orders; @expectedFailure body raising MultipleExceptions x 3; x 9 flavours"),
+        Sub("rerun_grid", run_case, enum=_enum_rerun, enum_complete=True,
+            note="the second run of one case object: 8 behaviours x 5 stages in the first run x {9 behaviours in the same stage, "
+                 "nothing / fail / interrupt in setUp, nothing elsewhere} in the second x 4 flavour pairs"),
         Sub("fault_grid", run_case, enum=_enum(not q), enum_complete=True,
             note=("10 behaviours ^ 5 stages x 9 flavours (+ expectThat variant)" if not q else "5 behaviours ^ 5 stages x 3 flavours")),
     ]
